@@ -55,18 +55,14 @@ class IdleHandshakeHandler(Elaboratable):
         data_word = self.sink.data
         ctrl_word = self.sink.ctrl
 
-        # Capture the previous data word; so we have a record of eight consecutive signals.
-        last_word = Signal.like(data_word)
-        last_ctrl = Signal.like(ctrl_word)
-        m.d.ss += [
-            last_word.eq(data_word),
-            last_ctrl.eq(ctrl_word),
-        ]
-
         # Logical idle descrambles to the raw data value zero; so we only need to validate that
-        # the last and current words are both zeroes.
-        last_word_was_idle   = (last_word == 0) & (last_ctrl == 0)
-        current_word_is_idle = (data_word == 0) & (ctrl_word == 0)
+        # the last and current valid words are both zeroes. Words that aren't valid carry no symbols.
+        current_word_is_idle = self.sink.valid & (data_word == 0) & (ctrl_word == 0)
+
+        # Remember whether the previous valid word was idle; so we have a record of eight consecutive symbols.
+        last_word_was_idle = Signal()
+        with m.If(self.sink.valid):
+            m.d.ss += last_word_was_idle.eq(current_word_is_idle)
         m.d.comb += [
             self.idle_detected  .eq(last_word_was_idle & current_word_is_idle)
         ]
